@@ -6,6 +6,7 @@ import (
 	"os"
 	"path/filepath"
 	"regexp"
+	"sort"
 	"strings"
 
 	"github.com/bmatcuk/doublestar/v4"
@@ -100,7 +101,12 @@ func ParseConfig(b []byte) (*Config, error) {
 		msg := strings.ReplaceAll(err.Error(), "\n", " ")
 		return nil, errors.New(msg)
 	}
+	pats := make([]string, 0, len(c.Paths))
 	for pat := range c.Paths {
+		pats = append(pats, pat)
+	}
+	sort.Strings(pats) // Report the same pattern every time when two or more patterns are invalid
+	for _, pat := range pats {
 		if !doublestar.ValidatePattern(pat) {
 			return nil, fmt.Errorf("invalid glob pattern %q in \"paths\"", pat)
 		}
